@@ -732,6 +732,29 @@ Fixpoint hist_steps (lazy warm : bool) (st : stored) (req : list Z) (byframe ass
 (* [NumberOfFrames; per-frame (segment, source index); the step results on the
    in-memory object; on the eagerly read file (same path, premise W1); on the
    lazily read file] *)
+(* the specification evaluated next to the model, for every object and cache
+   state: the stacked read of all sources is [expected]; if the input is
+   combinable the combined read is [expected_labels] *)
+Definition hist_spec_holds (c : cfg) (i : input) (perm : list Z) (byframe : bool) : bool :=
+  match construct c i perm with
+  | Err _ => false
+  | Ok st =>
+      let req := if byframe then one_to (nsrc c) else zrange (nsrc c) in
+      forallb (fun lw : bool * bool =>
+        let g := frame_getter (fst lw) (snd lw) st in
+        match read_g g st req byframe byframe with
+        | Ok x => eqb3 x (expected c i)
+        | Err _ => false
+        end &&
+        (if combinable c i
+         then match read_combined g st req byframe byframe with
+              | Ok y => eqb_list (eqb_list Z.eqb) y (expected_labels c i)
+              | Err _ => false
+              end
+         else true))
+      [(false, false); (false, true); (true, false); (true, true)]
+  end.
+
 Definition run_hist (c : cfg) (i : input) (perm req : list Z) (byframe assert_missing : bool)
   (steps : list Z) : val :=
   match construct c i perm with
@@ -741,5 +764,6 @@ Definition run_hist (c : cfg) (i : input) (perm req : list Z) (byframe assert_mi
            VL (map (fun m => vz_list [fst m; snd m]) (s_meta st));
            VL (hist_steps false false st req byframe assert_missing steps);
            VL (hist_steps false false st req byframe assert_missing steps);
-           VL (hist_steps true false st req byframe assert_missing steps) ]
+           VL (hist_steps true false st req byframe assert_missing steps);
+           VB (valid c i); VB (hist_spec_holds c i perm byframe); VB (combinable c i) ]
   end.
